@@ -66,7 +66,7 @@ def native_replay(pid, g, fail, inputs, path_base):
     with open(inp, "w") as f:
         for k, v in inputs:
             f.write("%s=%s\n" % (k, v))
-    srcs = [os.path.join(VERIF, rp["prog"])] + [s if os.path.isabs(s) else os.path.join(driver.REPO, s) for s in rp.get("srcs", g.srcs)]
+    srcs = [os.path.join(VERIF, rp["prog"])] + [s if os.path.isabs(s) else os.path.join(driver.REPO, s) for s in rp.get("srcs", [x if isinstance(x, str) else x[0] for x in g.srcs])]
     cc = ["gcc", "-O1", "-w", "-std=gnu99"] + driver.CONFIGS[g.cfg] + ["-D" + d for d in rp.get("defs", [])] + \
         ["-I" + os.path.join(driver.REPO, "src"), "-I" + os.path.join(VERIF, "spec"), "-I" + os.path.join(VERIF, "include"),
          "-I" + os.path.join(VERIF, "replay")] + srcs + ["-o", exe]
